@@ -12,12 +12,14 @@ import copy
 import logging
 import random
 
+import numpy as np
 import onnx_ir as ir
 import onnx_ir.passes.common as common_passes
 from onnx_ir.passes import functionalize
 
 from irsim import modelgen, ops, snapshot
 from irsim.world import World
+from simcore import knobs as _knobs
 from simcore.prng import Streams, digest
 
 logging.getLogger("onnx_ir").setLevel(logging.ERROR)
@@ -74,7 +76,7 @@ def gen_case(run_seed: int, tier: str, index: int = 0) -> dict:
         params["unsorted"] = False
     edits = ops.gen_ops(r, r.choice([10, 20, 40]), names=list(EDIT_WEIGHTS), weights=EDIT_WEIGHTS)
     route = [r.randrange(2) for _ in edits]
-    return {"property": PROPERTY, "run_seed": run_seed, "model_seed": r.randrange(1 << 30), "params": params, "clone": kind, "pass": r.choice(PASSES), "composition": _composition(run_seed), "devices": r.random() < 0.3, "edits": edits, "route": route, "meta_noise": r.random() < 0.5, "nested_types": r.choice([0, 0, 1, 2, 3])}
+    return {"property": PROPERTY, "warnings_error": _knobs.warnings_knob(run_seed), "run_seed": run_seed, "model_seed": r.randrange(1 << 30), "params": params, "clone": kind, "pass": r.choice(PASSES), "composition": _composition(run_seed), "devices": r.random() < 0.3, "edits": edits, "route": route, "meta_noise": r.random() < 0.5, "nested_types": r.choice([0, 0, 1, 2, 3])}
 
 
 def _aux_ids(w: World, deep: bool = False) -> dict:
@@ -247,6 +249,11 @@ def _find_subgraph_with_outer(model):
 
 
 def run_case(case: dict) -> dict:
+    with _knobs.interpreter(case):
+        return _run_case(case)
+
+
+def _run_case(case: dict) -> dict:
     stats: dict = {}
     res = {"violation": None, "error": None, "stats": stats, "steps": 0, "distinct": [], "states": [], "case": case}
 
@@ -318,6 +325,19 @@ def run_case(case: dict) -> dict:
                     planted.add(id(a_.value))
                     planted_objs.append(a_.value)
                     inc("const_valued_node_outputs")
+    if model.functions and Streams(case["run_seed"]).rng("function-default-graphs").random() < 0.4:
+        # a function attribute parameter whose DEFAULT value is a graph (legal: attribute_proto of the FunctionProto)
+        for fi, f in enumerate(model.functions.values()):
+            k = ir.Node("", "Constant", [], [ir.AttrTensor("value", ir.Tensor(np.full((2, 3), 1.0 + fi, dtype=np.float32), name=f"dflt_t{fi}"))], name=f"dflt_n{fi}")
+            k.outputs[0].name = f"dflt_v{fi}"
+            k.outputs[0].type = ir.TensorType(ir.DataType.FLOAT)
+            k.outputs[0].shape = ir.Shape([2, 3])
+            body = ir.Graph([], [k.outputs[0]], nodes=[k], name=f"dflt_body{fi}")
+            if fi % 2:
+                f.attributes["dflt_bodies"] = ir.AttrGraphs("dflt_bodies", [body])
+            else:
+                f.attributes["dflt_body"] = ir.AttrGraph("dflt_body", body)
+            inc("function_default_graphs")
     kind = case["clone"]
     inc("clone_" + kind)
     tensors0 = _tensor_states(model)
